@@ -198,6 +198,7 @@ pub struct Searcher<'a> {
     lscolors: LsColors,
     dir_queue: Box<VecDeque<(PathBuf, u32)>>,
     current_follow_symlinks: bool,
+    output_closed: bool,
 
     fms: FileMetadataState,
 
@@ -239,6 +240,7 @@ impl<'a> Searcher<'a> {
             lscolors: LsColors::from_env().unwrap_or_default(),
             dir_queue: Box::from(VecDeque::new()),
             current_follow_symlinks: false,
+            output_closed: false,
 
             fms: FileMetadataState::new(),
 
@@ -359,6 +361,10 @@ impl<'a> Searcher<'a> {
 
         // ======== Explore each root =========
         for root in roots {
+            if self.output_closed {
+                break;
+            }
+
             self.current_follow_symlinks = root.options.symlinks;
 
             let root_dir = Path::new(&root.path);
@@ -669,7 +675,8 @@ impl<'a> Searcher<'a> {
         match fs::read_dir(dir) {
             Ok(entry_list) => {
                 for entry in entry_list {
-                    if !self.is_buffered() && self.query.limit > 0 && self.query.limit <= self.found
+                    if self.output_closed
+                        || (!self.is_buffered() && self.query.limit > 0 && self.query.limit <= self.found)
                     {
                         break;
                     }
@@ -840,7 +847,7 @@ impl<'a> Searcher<'a> {
         }
 
         if traversal_mode == Bfs && process_queue {
-            while !self.dir_queue.is_empty() {
+            while !self.dir_queue.is_empty() && !self.output_closed {
                 let (path, depth) = self.dir_queue.pop_front().unwrap();
                 #[cfg(feature = "git")]
                 let repo;
@@ -2000,6 +2007,8 @@ impl<'a> Searcher<'a> {
             }
         } else if let Err(e) = write!(std::io::stdout(), "{}", String::from(buf)) {
             if e.kind() == ErrorKind::BrokenPipe {
+                // nobody reads the output any more: the search is over
+                self.output_closed = true;
                 return Ok(false);
             }
         }
